@@ -164,11 +164,17 @@ theorem View.sighashTaproot_eq (sha : Bytes → Bytes) (buf : Bytes) (v : View) 
     by_cases hl : values.length ≠ t.vin.length
     · simp [hl]
     · simp only [hl, if_false]
+      by_cases hls : spks.length ≠ t.vin.length
+      · simp [hls]
+      simp only [hls, if_false]
       cases hc : sighashCheck f with
       | none => rfl
       | some r =>
         obtain ⟨sh, acp⟩ := r
         simp only []
+        by_cases h80 : (acp && sh == 0) = true
+        · simp [h80]
+        simp only [h80, if_false]
         by_cases hf : f ≥ 256
         · simp [hf]
         · simp only [hf, if_false]
